@@ -300,7 +300,9 @@ Section AsmFaithful.
         exists x. rewrite Ha. unfold ok_child in Hok. simpl in Hok.
         assert (t = TAny) by (destruct t; simpl in Hs; try discriminate; reflexivity).
         rewrite H in *. destruct x; simpl in Hok; try discriminate.
-        repeat split. simpl in Hden. simpl. rewrite Hden. reflexivity.
+        simpl in Hden. subst d.
+        split; [reflexivity|]. split; [|reflexivity].
+        simpl. exact Hok.
       + simpl in Hf.
         pose proof (bindable_noptr _ _ Hs) as Hnp.
         assert (Hl : loc_ok (fun _ => bindable t) t s1 = true).
@@ -915,6 +917,7 @@ Section AsmFaithful.
           cbn [denote unptr]. rewrite Hden. reflexivity.
     - (* union *)
       destruct (deref1 s) as [| | | | | | | | |sn ss|] eqn:Es; simpl in Hb; try discriminate.
+      apply andb_prop in Hb. destruct Hb as [Hb Hkwf].
       apply andb3 in Hb. destruct Hb as [Hb [Hnn Hnd]].
       assert (Hinner : fst (inner s (zero_of s)) = SStruct sn ss) by (rewrite inner_zero, Es; reflexivity).
       destruct lv.
@@ -965,6 +968,7 @@ Section AsmFaithful.
           -- unfold union_set in *. cbn [denote unptr]. exact Hden.
     - (* enum *)
       destruct (deref1 s) eqn:Es; simpl in Hb; try discriminate.
+      apply andb_prop in Hb. destruct Hb as [Hb Hsmall].
       destruct lv.
       + simpl in Hf. destruct d; try (destruct r; discriminate).
         assert (He : enum_by_name s0 ms <> None) by (destruct r; destruct (enum_by_name s0 ms); congruence).
